@@ -65,6 +65,10 @@ pub enum Step {
     /// C32 stub of the future `set_builder_fee`: checkpoint a builder (user index) and a fee factor (in
     /// 1e-6 units of 100 %) onto the pending order `slot`.
     ForgeBuilder { slot: usize, builder: usize, factor_ppm: u32 },
+    /// Keeper refreshes the ADL-enabled flag of a market side.
+    UpdateAdl { market: usize, is_long: bool },
+    /// Keeper auto-deleverages position `pos` (usize::MAX = the most recent one) by `size_usd`.
+    Adl { pos: usize, size_usd: u64 },
     /// Settle the builder fee of order `slot` (`twice`: the settlement is delivered two times).
     SettleBuilderFee { slot: usize, twice: bool },
 }
@@ -126,7 +130,7 @@ impl Scenario for Exchange {
         let mut p = Rng::derive(seed, run, "ex.plan");
         let cfg = Cfg {
             n_users: c.usize(2, 3),
-            params: c.below(5) as u8,
+            params: if focus == "C09" && c.chance(1, 2) { 5 } else { c.below(6) as u8 },
             twins: focus == "C19" || c.chance(1, 10),
             faults: c.chance(2, 3),
             big_world: focus == "C44" || c.chance(1, 2),
@@ -159,6 +163,36 @@ impl Scenario for Exchange {
         for _ in 0..len {
             let user = p.usize(0, cfg.n_users - 1);
             let market = p.usize(0, n_markets - 1);
+            // ADL: a large position, a favourable price move, flag refresh, auto-deleverage attempts.
+            if cfg.params == 5 && p.chance(1, 6) {
+                let mdef = MARKETS[market];
+                let is_long = p.bool();
+                let collat_long = p.bool();
+                let ctoken = if collat_long { mdef.1 } else { mdef.2 };
+                let collat_usd_cents = p.range(100_000, 800_000);
+                let dec = [9u32, 6, 8, 8][ctoken];
+                let collateral = (collat_usd_cents as u128 * 10u128.pow(dec) / cents[ctoken].max(1) as u128) as u64;
+                let lev = *p.pick(&[1u64, 2, 3]);
+                steps.push(Step::Prices { cents: cents.clone(), spread_bps: 2 });
+                n_actions += 1;
+                steps.push(Step::Order { user, market, kind: 0, is_long, collat_long, collateral, size_usd: (collat_usd_cents / 100).max(1) * lev, path: vec![], min_output: None, acceptable_cents: None, tin: None, tout: None });
+                steps.push(Step::Execute { slot: n_actions - 1, throw: true });
+                let bps = *p.pick(&[0u64, 300, 1000, 2500, 5000]);
+                let idx = mdef.0;
+                let d = (cents[idx] as u128 * bps as u128 / 10_000) as u64;
+                let favourable = p.chance(4, 5);
+                cents[idx] = if is_long == favourable { cents[idx].saturating_add(d) } else { cents[idx].saturating_sub(d).max(1) };
+                steps.push(Step::Prices { cents: cents.clone(), spread_bps: 2 });
+                if p.chance(4, 5) {
+                    steps.push(Step::UpdateAdl { market, is_long });
+                }
+                let size = (collat_usd_cents / 100).max(1) * lev;
+                steps.push(Step::Adl { pos: usize::MAX, size_usd: *p.pick(&[1u64, size / 10 + 1, size / 2 + 1, size, size * 2]) });
+                if p.chance(1, 2) {
+                    steps.push(Step::Adl { pos: usize::MAX, size_usd: size });
+                }
+                continue;
+            }
             // A leveraged position followed by an adverse (or harmless) price move and a liquidation attempt.
             if focus == "C09" && p.chance(1, 5) {
                 let mdef = MARKETS[market];
@@ -507,6 +541,15 @@ impl Sim {
                     self.set_cfg(m, "order_fee_factor_for_positive_impact", USD / 100);
                     self.set_cfg(m, "order_fee_factor_for_negative_impact", USD / 50);
                     self.set_cfg(m, "liquidation_fee_factor", USD / 100);
+                }
+                5 => {
+                    // ADL reachable: tiny pnl-factor limits
+                    self.set_cfg(m, "max_pnl_factor_for_long_adl", USD / 50);
+                    self.set_cfg(m, "max_pnl_factor_for_short_adl", USD / 50);
+                    self.set_cfg(m, "min_pnl_factor_after_long_adl", USD / 200);
+                    self.set_cfg(m, "min_pnl_factor_after_short_adl", USD / 200);
+                    self.set_cfg(m, "max_pnl_factor_for_long_trader", USD);
+                    self.set_cfg(m, "max_pnl_factor_for_short_trader", USD);
                 }
                 4 => {
                     // high leverage allowed, heavy funding
@@ -961,6 +1004,55 @@ impl Sim {
                     let keeper = self.d.keeper;
                     let stranger = self.stranger;
                     self.twin(&pre, &ixs, &keeper, "liquidate", "no_role", &stranger, obs);
+                }
+                self.after_tx(&out, obs);
+            }
+            Step::UpdateAdl { market, is_long } => {
+                let mk = self.d.markets[*market % self.d.markets.len()].clone();
+                let ix = ex::update_adl_state_ix(&self.d, &mk, *is_long);
+                let pre = self.w.clone();
+                let out = self.w.process(ix.clone());
+                obs.outcome("order_keeper", "update_adl_state", &out.class());
+                if out.ok {
+                    let keeper = self.d.keeper;
+                    let stranger = self.stranger;
+                    self.twin(&pre, &[ix], &keeper, "update_adl_state", "no_role", &stranger, obs);
+                    if read_pod::<Market>(&self.w, &mk.market).map(|m| m.is_adl_enabled(*is_long)).unwrap_or(false) {
+                        obs.probe("adl_enabled");
+                    }
+                }
+                self.after_tx(&out, obs);
+            }
+            Step::Adl { pos, size_usd } => {
+                if self.positions.is_empty() {
+                    return;
+                }
+                let pk = if *pos == usize::MAX { *self.positions.last().unwrap() } else { self.positions[*pos % self.positions.len()] };
+                let Some(p) = read_pod::<Position>(&self.w, &pk) else { return };
+                if p.state.size_in_usd == 0 {
+                    return;
+                }
+                let Some(mi) = self.d.markets.iter().position(|m| m.market_token == p.market_token) else { return };
+                let is_long = p.try_is_long().unwrap_or(true);
+                let nonce = self.next_nonce();
+                let Some((ixs, _order)) = ex::position_cut_tx(&self.w, &self.d, &pk, nonce, Some(*size_usd as u128 * USD), 5000, 0) else { return };
+                let pre = self.w.clone();
+                let prices = crate::c40::accepted_prices(&pre, &self.d, mi);
+                let before = prices.as_ref().and_then(|pr| crate::c40::sdk_pnl_factor(&pre, &self.d, mi, pr, is_long, true));
+                let out = self.w.process_tx(&ixs, &TxOpts::default());
+                obs.outcome("order_keeper", "auto_deleverage", &out.class());
+                obs.event(|| format!("auto_deleverage {pk} size={size_usd} -> {} (pnl factor before: {before:?})", out.class()));
+                if out.ok {
+                    obs.probe("adl_succeeded");
+                    let after = prices.as_ref().and_then(|pr| crate::c40::sdk_pnl_factor(&self.w, &self.d, mi, pr, is_long, false));
+                    if let (Some((fb, max, min)), Some((fa, _, _))) = (before, after) {
+                        obs.require(fb > 0 && fb as u128 > max, "C09", "adl_without_excess", || "ref=sdk_market_model".into(), || format!("auto-deleverage succeeded with pnl factor {fb} <= limit {max}"));
+                        obs.require(fa < fb, "C09", "adl_did_not_lower_factor", || "ref=sdk_market_model".into(), || format!("auto-deleverage: pnl factor {fb} -> {fa}"));
+                        obs.require(fa >= min as i128, "C09", "adl_below_minimum", || "ref=sdk_market_model".into(), || format!("auto-deleverage: pnl factor after {fa} < configured minimum {min}"));
+                    }
+                    let keeper = self.d.keeper;
+                    let stranger = self.stranger;
+                    self.twin(&pre, &ixs, &keeper, "auto_deleverage", "no_role", &stranger, obs);
                 }
                 self.after_tx(&out, obs);
             }
